@@ -125,7 +125,7 @@ def spec_run(inp, cfg):
     return "ok", out
 
 
-def run(chk):
+def _run_once(chk):
     chk.rule = ("regex family {-, [-,], -|,, (alternation of different lengths), ,,|, , -+, é, ab|a, (-|,)+, a(b|cc), \\|, é|,} × records over the "
                 "regex's own alphabet × bounds with sides in ±4/open and fallbacks × subsets of -g, -t l|r|b, -p -r R, -r R (R ∈ {/, ::, empty, $0x, -, ',-', "
                 "\\1}), -s, -m, -j; match positions of the real engine compared with python's re and the Lean matcher on every record; "
@@ -251,3 +251,9 @@ def run(chk):
                 runs.append((a, b))
         if not ok or runs != gm:
             chk.count("contract:greedy-not-runs" if ok else "contract:broken")
+
+
+def run(chk):
+    # thorough = several independent rounds of the same generators (the PRNG keeps advancing), so that memory stays bounded
+    for _round in range(1 if chk.tier == "quick" else 6):
+        _run_once(chk)
